@@ -35,7 +35,10 @@ def make_packet(prof, rng, kind, size):
         size = max(size, len(head))
         data = bytes(rng.getrandbits(8) for _ in range(size - len(head)))
         return {'kind': 'known', 'payload': head + data, 'chan': chan, 'data': data}
-    uid = prof.unknown_id('play')
+    # several different ids the library has no class for (the consumer keeps the packet objects and looks at them later)
+    known = prof.known_cb_play
+    pool = [i for i in (0x7A, 0x7B, 0x7C, 0x7D, 0x7E, 0x7F, 0x80, 0xFF, 0x3FFF) if i not in known] or [prof.unknown_id('play')]
+    uid = rng.choice(pool)
     head = P.VI(uid)
     size = max(size, len(head))
     return {'kind': 'unk', 'payload': head + bytes(rng.getrandbits(8) for _ in range(size - len(head))), 'id': uid}
